@@ -39,7 +39,7 @@ def c08(ctx: Ctx):
             ctx.samples.append(dict(c=o["c"], verdict=o.get("verdict")))
     ctx.rule = ("complete product of spec/Gen_C08.tla: (response maps of <=3 keys out of 8 (11 thorough) x 15 (22) status codes x GET/HEAD x strict-status x which "
                 "entry's marker the body carries) + (header declarations x header texts x 7 content declarations x 5 content types x bodies x ExcludeResponseBody x "
-                "ExcludeWriteOnlyValidations x MultiError) + body schema behind 6 wraps + part hdr (spec/HeaderUniverse.tla: 19 header schemas x 34 texts x required x "
+                "ExcludeWriteOnlyValidations x MultiError) + body schema behind 6 wraps + part media (content maps of <=3 keys out of 6, with and without parameters, media ranges x 6 Content-Types x which entry's marker the body carries) + part hdr (spec/HeaderUniverse.tla: 19 header schemas x 34 texts x required x "
                 "explode x options; two declared headers; undeclared header; two field lines; a definition named Content-Type; $ref / nil-Options variants) + every history "
                 "of spec/BodyKeep.tla (validate / read calls over 2-3 responses); every case is distinct and judged")
     ctx.validate("Trace_C08", "Trace_C08.cfg", logp, chunk_lines=max(1500, ctx.evaluations // 32 + 1))
